@@ -76,6 +76,39 @@ func ContractIssues(fs *memfs.FS, base int) []fw.Issue {
 	return is
 }
 
+// pathDependent: backend methods that a fenced fid (at or below an unlinked or
+// overwritten path) must not reach (C08): everything except I/O on open
+// handles, GetAttr, StatFS, Lock, clone, Renamed and Close.
+var pathDependent = map[string]bool{"Walk": true, "WalkGetAttr": true, "Create": true, "Mkdir": true, "Symlink": true, "Link": true, "Mknod": true,
+	"UnlinkAt": true, "RenameAt": true, "Rename": true, "Open": true, "SetAttr": true, "Readlink": true,
+	"GetXattr": true, "ListXattrs": true, "SetXattr": true, "RemoveXattr": true}
+
+// FenceIssues: once a path has been unlinked or overwritten (the backend call
+// that did it has RETURNED, in happens-before), no path-dependent call may
+// start on a handle at or below it.
+func FenceIssues(fs *memfs.FS, base int) []fw.Issue {
+	var is []fw.Issue
+	for i := base; i < len(fs.Calls); i++ {
+		c := fs.Calls[i]
+		u := c.FencedBy
+		if u == nil || !pathDependent[c.Method] || c.Enter.Thread < 0 || !u.Done || u.Exit.Thread < 0 {
+			continue
+		}
+		if (c.Method == "Walk" || c.Method == "WalkGetAttr") && len(c.Names) == 0 {
+			continue // clone
+		}
+		if !vsched.HB(&u.Exit, &c.Enter) {
+			continue
+		}
+		is = append(is, fw.Issue{
+			Fingerprint: fmt.Sprintf("fence|%s@%s after %s", c.Method, siteFunc(c.Site), u.Method),
+			Summary: fmt.Sprintf("%s(%s) reached the backend through a fenced fid: handle %d at %s, whose path had been removed by %s(%s) that returned before (called from %s)",
+				c.Method, strings.Join(c.Names, ","), c.Handle, c.Path, u.Method, strings.Join(u.Names, ","), c.Site),
+		})
+	}
+	return is
+}
+
 // MemfsIssues turns what memfs itself noticed into issues.
 func MemfsIssues(fs *memfs.FS) []fw.Issue {
 	var is []fw.Issue
